@@ -171,7 +171,7 @@ PROPS["C01"] = {
         {"bin": "hv", "args": ["c01"]},
         {"bin": "hvt", "args": ["c01"]},
     ],
-    "min": {"quick": {"responses_judged": 1000, "keep_alive_continuations": 100, "closes_observed": 50, "malformed_answered_400": 20, "idle_answered_408": 4, "handler_logs_matched": 300, "panic_connections_closed": 10},
+    "min": {"quick": {"responses_judged": 1000, "keep_alive_continuations": 100, "closes_observed": 50, "malformed_answered_400": 20, "idle_answered_408": 4, "handler_logs_matched": 300, "panic_connections_closed": 10, "half_close_endings_silent": 50, "zero_request_connections_silent": 10},
             "thorough": {"responses_judged": 20_000}},
     "assumptions": [],
     "level_text": "Generated request scripts are played over real TCP connections against real Apps (threaded and tokio) under several segmentations, lock-step and pipelined; every byte received is parsed by a strict HTTP reference reader and compared with a reference model of the expected response sequence and connection disposition, and the handler-side log is compared with what was sent.",
